@@ -97,7 +97,7 @@ WAVE4 = {"C01-5": "C01", "C02-5": "C02", "C03-5": "C03", "C04-5": "C04", "C06-5"
 NEEDS.update({
     "C01-5": "tcpFragment enabled with maxSleepMs > 0 on the sender, >= 2 sessions on one TCP underlay, and one session opening/closing while another writes during an inter-fragment sleep: sendMutex released during the sleep, another segment lands inside the fragmented one",
     "C02-5": "no loss: receiver application paused until its queue holds 4096 segments so the advertised window is exactly 0 with nothing in flight, then the reader resumes: window updates with an unchanged ack number are discarded (<= instead of <)",
-    "C03-5": "see README.md",
+    "C03-5": "UDP: more than 4096 segments outstanding (slow path, multi-fragment writes), the last successful Write leaving the 4096-slot send queue EXACTLY full, Close() right after it: the slot reserved for the close request is gone (Remaining() >= n), the fallback sends the close request at once and deletes the queued data; nothing lost on the wire",
     "C04-5": "low-entropy pattern enabled and an on-path reflection splice (on TCP with the clear nonce rebased): the tidied protocol allow list accepts both low-entropy data directions at either role, so an endpoint reads its own reflected data",
     "C06-5": "UDP: a datagram of an ESTABLISHED session (not the handshake) recorded and re-sent from a different source address within the key validity, the session already cleaned: established-session datagrams no longer enter the replay cache",
     "C07-5": "a user record carrying both password and hashedPassword, and a reload in which only hashedPassword differs: the new fingerprint shortcut of SetUsers prefers the raw password while buildCredential prefers the hash; the retired credential keeps authenticating",
